@@ -119,12 +119,6 @@ theorem frame_setFlattened (s : State) (vid : Nat) (name : String) (vals : FlatV
 
 /-! ## 4. Copies and independently created vectors share no mutable state -/
 
-theorem getVec_ok {s : State} {vid : Nat} {v : Vec} (h : s.getVec vid = .ok v) : s.vecs[vid]? = some v := by
-  unfold State.getVec at h
-  split at h
-  · rename_i v' hv'; cases h; exact hv'
-  · cases h
-
 /-- **copy**: on every reachable state `copy` succeeds; the copy has the source's schema, a
 metadata dict of its own, every populated cell is an array allocated by this very call (so it
 occurs in no older vector and is not held by the caller) holding the same values as the source
@@ -214,7 +208,7 @@ theorem copy_independent {s : State} (hI : Inv s) {vid : Nat} {v : Vec} (hv : s.
   have hgw : ({ heap := s.heap ++ ext, vecs := s.vecs ++ [w], metas := s.metas ++ [[]] } : State).getVec s.vecs.length = .ok w := by
     simp [State.getVec]
   have hgv : ({ heap := s.heap ++ ext, vecs := s.vecs ++ [w], metas := s.metas ++ [[]] } : State).getVec vid = .ok v := by
-    have := getVec_ok hv
+    have := getVec_ok' hv
     simp [State.getVec, List.getElem?_append_left (getElem?_lt this), this]
   constructor
   · intro r hr
@@ -224,6 +218,19 @@ theorem copy_independent {s : State} (hI : Inv s) {vid : Nat} {v : Vec} (hv : s.
     refine (frame_fieldOp _ _ name f v r hgv ?_).1
     intro hr2
     exact hdisj v hvm r hr2 hr
+
+/-! ## 4b. Recursive column add / remove -/
+
+/-- **add_fields then remove_fields of the same (new, distinct) names restores the vector** on
+every reachable state: both calls succeed; shape, fields and units are as before; the same cells
+are populated and every populated cell holds an array with exactly the values it held before
+(`SameValue`; the arrays themselves are new objects, as in the code). -/
+theorem add_remove_fields {s : State} (hI : Inv s) {vid : Nat} {v : Vec} {names : List String}
+    (hv : s.getVec vid = .ok v) (hnew : ∀ n ∈ names, n ∉ v.fields) (hnd : names.Nodup) (hne : names ≠ []) :
+    ∃ (s1 s2 : State) (v2 : Vec), opAddFields s vid names = (s1, .none) ∧ opRemoveFields s1 vid names = (s2, .none) ∧
+      s2.getVec vid = .ok v2 ∧ v2.shape = v.shape ∧ v2.fields = v.fields ∧ v2.units = v.units ∧
+      All2 (SameValue s.heap s2.heap) v.cells v2.cells :=
+  add_remove_spec hI hv hnew hnd hne
 
 /-! ## 5. Slicing returns the addressed cells, for any number of fixed dimensions -/
 
@@ -276,7 +283,7 @@ theorem slice_spec {s s' : State} {vid id : Nat} {idx : List Ix} (h : opGetItem 
                   simp only [State.mkVec, Prod.mk.injEq, Res.newVec.injEq] at h
                   obtain ⟨h1, h2⟩ := h
                   subst h1; subst h2
-                  refine ⟨v, Vec.mk (ls.map List.length) (ps.map fun p => (v.cells[p]?).join) v.fields us s.metas.length, ls, getVec_ok hv, by simp, hls, rfl, rfl, hu, rfl, ?_⟩
+                  refine ⟨v, Vec.mk (ls.map List.length) (ps.map fun p => (v.cells[p]?).join) v.fields us s.metas.length, ls, getVec_ok' hv, by simp, hls, rfl, rfl, hu, rfl, ?_⟩
                   intro o src haddr
                   have := positions_addr haddr ps hps
                   simp only [List.getElem?_map, this, Option.map_some, Option.join_some]
@@ -316,6 +323,16 @@ example : ¬ Inv (State.mk [Arr.mk 1 [[0]]] [Vec.mk [1] [some 0] ["x", "y"] ["a"
   intro h
   obtain ⟨a, ha, hn⟩ := (h.vecs _ List.mem_cons_self).cells (some 0) List.mem_cons_self 0 rfl
   simp at ha; subst ha; simp at hn
+
+/-- the hypotheses of `flatten_after_setFlattened`, `copy_fresh`, `copy_independent`,
+`add_remove_fields` are satisfiable: a reachable state with a populated vector whose cells do not
+alias, a field name it has and new names it does not have. -/
+def demoOps : List Op :=
+  [.alloc 2 [[1, 2], [3, 4]], .fromShape [2] none (some ["x", "y"]) none, .setItem 0 [.int 0] (.one (.ref 0))]
+example : Inv (run init demoOps) := invariant_all_histories _
+example : (run init demoOps).getVec 0 = .ok (Vec.mk [2] [some 0, none] ["x", "y"] ["none", "none"] 0) := rfl
+example : (refsOf [some 0, none]).Nodup := by decide
+example : "x" ∈ ["x", "y"] ∧ (∀ n ∈ ["z", "w"], n ∉ ["x", "y"]) ∧ ["z", "w"].Nodup ∧ ["z", "w"] ≠ [] := by decide
 
 /-- `Addr` instances exist for 1, 2 and 3 fixed dimensions, with slices expanded to index lists,
 negative indices wrapping, and repeated list entries. -/
